@@ -406,3 +406,5 @@ func classMessage(class string) string {
 	}
 	return "error parsing decimal value: x"
 }
+
+type xastPolicy = xast.Policy
